@@ -130,7 +130,19 @@ class C18Check(object):
         self.nworkers = 1
 
     # ---------------------------------------------------------------- generation
+    validation_runs = {"quick": 4, "thorough": 32}
+
     def generate(self, seed, run):
+        nval = self.validation_runs.get(self.tier, 0) if self.prop == "C18" else 0
+        if run < nval:
+            # model validation: an ordinary history whose fresh-emulation values are afterwards recomputed in
+            # truly fresh interpreters; spread over the bundles
+            inner = self.generate_history(seed, 10**6 + run * 5)
+            inner["validate_model"] = True
+            return inner
+        return self.generate_history(seed, run - nval)
+
+    def generate_history(self, seed, run):
         from workloads import spaces
 
         r = rng.stream(seed, self.prop, run, "input")
@@ -302,9 +314,46 @@ class C18Check(object):
                 "clients": case.get("nclients"),
             }
             out.info["model_cache"] = [history.MODEL_CACHE.hits, history.MODEL_CACHE.misses]
+            if case.get("validate_model"):
+                self.validate_model(eng, out)
         finally:
             env.reset_process_state("h")
         return out
+
+    def validate_model(self, eng, out):
+        """Recompute up to two model values in truly fresh interpreters; disagreement = harness error."""
+        import json
+        import subprocess
+        import tempfile
+
+        import numpy as np
+
+        from checks import common
+
+        script = os.path.join(env.VERIF_ROOT, "checks", "c18_fresh.py")
+        for req, val in eng.model_requests[:2]:
+            with tempfile.TemporaryDirectory(prefix="c18fresh", dir=env.scratch_dir()) as d:
+                rp = os.path.join(d, "req.json")
+                op = os.path.join(d, "out.npy")
+                with open(rp, "w") as f:
+                    json.dump(req, f)
+                envv = dict(os.environ)
+                envv.pop("NUMBA_NUM_THREADS", None)
+                p = subprocess.run([sys.executable, script, rp, op], capture_output=True, text=True, env=envv, timeout=1200)
+                if p.returncode != 0:
+                    raise RuntimeError("fresh-interpreter validation failed to run: " + p.stderr[-1500:])
+                truth = np.load(op)
+            bitwise = truth.tobytes() == np.asarray(val).tobytes() and truth.dtype == np.asarray(val).dtype
+            ok, err, scale = common.close(val, truth, rtol=1e-13, afloor=1e-15)
+            out.probe("model_validated_in_fresh_interpreter")
+            if bitwise:
+                out.probe("model_validation_bitwise_equal")
+            out.events.append(["model_validation", req["spec"].get("op"), req["assembler"], bool(ok), bool(bitwise)])
+            if not ok:
+                raise RuntimeError(
+                    "fresh emulation disagrees with a fresh interpreter (rel %.3g) for %s: the reference model is unsound"
+                    % (err / scale if scale else err, json.dumps({k: req[k] for k in ("spec", "assembler", "precision", "vector")}))
+                )
 
     @staticmethod
     def _short(o):
